@@ -1045,4 +1045,22 @@ pub fn mulmod""", expect=r'semantics:ADDMOD:(add512|no-other)'),
             Ok(())""", new="""            st.purge_approvals(rt.store(), &Address::new_id(from_resolved)).ok();
             Ok(())""", expect=r'results-not-discarded:.*purge_approvals'),
  dict(id='K14-miner-notify-error-ignored', pid=['C03', 'C05'], file='actors/miner/src/lib.rs', old="""        notify_pledge_changed(rt, &newly_vested.neg())?;""", new="""        let _ = notify_pledge_changed(rt, &newly_vested.neg());""", expect=r'results-not-discarded:.*notify_pledge_changed|notify-propagated'),
+
+ # ---------------- K15 tolerated failures (generic: a `?` turned into a logged-and-ignored error)
+ dict(id='K15-market-cron-swallows-update-error', pid=['C07', 'C05'], file='actors/market/src/lib.rs', old="""                        st.remove_pending_deal(rt.store(), dcid)?.ok_or_else(|| {""", new="""                        if let Err(e) = st.put_deal_states(rt.store(), &[]) {
+                            log::warn!("ignored: {}", e);
+                        }
+                        st.remove_pending_deal(rt.store(), dcid)?.ok_or_else(|| {""", expect=r'tolerated-failures:.*put_deal_states'),
+ dict(id='K15-verifreg-burn-failure-tolerated', pid=['C09'], file='actors/verifreg/src/lib.rs', old="""        burn(rt, &total_claimed_space)?;""", new="""        if let Err(e) = burn(rt, &total_claimed_space) {
+            log::warn!("failed to burn claimed datacap: {}", e);
+        }""", expect=r'tolerated-failures:.*burn'),
+ dict(id='K15-miner-invariant-check-tolerated', pid=['C01', 'C15'], file='actors/miner/src/lib.rs', old="""        let state: State = rt.state()?;
+        state.check_balance_invariants(&rt.current_balance()).map_err(balance_invariants_broken)?;
+        Ok(())
+    }
+}""", new="""        let state: State = rt.state()?;
+        state.check_balance_invariants(&rt.current_balance()).map_err(balance_invariants_broken).unwrap_or_default();
+        Ok(())
+    }
+}""", expect=r'tolerated-failures:.*check_balance_invariants|solvency'),
 ]
